@@ -582,3 +582,13 @@ def local_mirrors_attr(fn: FuncInfo, name: str, attr: str) -> bool:
                 not any(isinstance(a_, ast.Assign) and n in a_.targets for a_ in walk_local(fn.node)):
             return False
     return found
+
+
+def cmp_atom_diff(e: ast.AST):
+    """cmp_atom(e), with a difference compared against zero read as the comparison of its operands: `A - B <= 0` is `A <= B`
+    (integers; nothing wrapped around the difference)."""
+    a = cmp_atom(e)
+    if a and a[0] in ('eq', 'lt', 'le', 'gt', 'ge') and isinstance(a[1], ast.BinOp) and isinstance(a[1].op, ast.Sub) and \
+            isinstance(a[2], ast.Constant) and a[2].value == 0 and not isinstance(a[2].value, bool):
+        return a[0], a[1].left, a[1].right
+    return a
